@@ -106,16 +106,17 @@ func c03Frames(rt *rapid.T) {
 			}
 			return enc, true
 		}
-		// now and then the codec is first asked to encode a frame it must refuse half-way through its body (a nil
-		// [value] after a regular one): whatever it had written so far must not leak into the frames that follow
+		// now and then the codec is first asked to encode a frame it must refuse half-way through its body (an undeclared
+		// consistency level after the query string): whatever it had written so far must not leak into the frames that follow
 		if rapid.IntRange(0, 3).Draw(rt, fmt.Sprintf("refusedFirst%d", i)) == 0 {
+			// (an undeclared consistency level: its length can be computed, writing it is refused after the query string)
 			bad := frame.NewFrame(v, 1, &message.Query{Query: "refused " + strings.Repeat("!", 64), Options: &message.QueryOptions{
-				Consistency: primitive.ConsistencyLevelOne, PositionalValues: []*primitive.Value{primitive.NewValue([]byte("written before the refusal")), nil}}})
+				Consistency: primitive.ConsistencyLevel(0x7777), PositionalValues: []*primitive.Value{primitive.NewValue([]byte("never written"))}}})
 			if comp != compNone {
 				bad.SetCompress(true)
 			}
 			if _, err := encodeFrame(codec, bad); err == nil {
-				rt.Fatalf("harness defect: a QUERY with a nil positional value was encoded")
+				rt.Fatalf("harness defect: a QUERY with an undeclared consistency level was encoded")
 			}
 			refused++
 		}
